@@ -17,6 +17,9 @@ pub struct Case {
     pub opt_arg: bool,
     /// 0 = `local function f`, 1 = global `function f`, 2 = `local f = function`
     pub style: u8,
+    /// pass literal arguments as literal expressions (`f("x")`) instead of declared variables
+    #[serde(default)]
+    pub literal_expr: bool,
 }
 
 pub struct C18;
@@ -52,16 +55,6 @@ fn subst(t: &Ty, binds: &[(&str, Ty)]) -> Ty {
         Ty::Tpl(name) => binds.iter().find(|b| b.0 == name).map(|b| b.1.clone()),
         _ => None,
     })
-}
-
-/// literal widened to its base type (what a non-const generic parameter may do to a literal argument)
-fn widen(t: &Ty) -> Ty {
-    match t {
-        Ty::Str(..) => Ty::Prim(0),
-        Ty::Int(_) => Ty::Prim(1),
-        Ty::Bool(_) => Ty::Prim(3),
-        other => other.clone(),
-    }
 }
 
 fn is_nil(t: &Ty) -> bool {
@@ -105,7 +98,8 @@ pub struct Built {
     pub args: Vec<String>,
 }
 
-pub fn build(c: &Case) -> Option<Built> {
+/// `widen`: the base type of a literal binding (decided on the materialised type), identity otherwise
+pub fn build(c: &Case, widen: &dyn Fn(&Ty) -> Ty) -> Option<Built> {
     let w = &c.world;
     let ti = c.tpl as usize % TEMPLATES.len();
     let name = TEMPLATES[ti];
@@ -168,7 +162,15 @@ pub fn build(c: &Case) -> Option<Built> {
     for (i, a) in arg_texts.iter().enumerate() {
         p.push_str(&format!("---@type {a}\nlocal arg{i}\n"));
     }
-    let call_args: Vec<String> = (0..args.len()).map(|i| format!("arg{i}")).collect();
+    let direct = matches!(name, "identity" | "to-array" | "to-fun" | "pair-first" | "pair-second");
+    let call_args: Vec<String> = (0..args.len())
+        .map(|i| match &args[i] {
+            // a literal type passed as the literal expression itself
+            Ty::Str(..) | Ty::Bool(_) if c.literal_expr && direct => arg_texts[i].clone(),
+            Ty::Int(t) if c.literal_expr && direct && t.len() <= 10 => t.clone(),
+            _ => format!("arg{i}"),
+        })
+        .collect();
     p.push_str(&format!("local r = f({})\n", call_args.join(", ")));
     Some(Built { program: p, expected, args: arg_texts })
 }
@@ -178,13 +180,38 @@ impl C18 {
         let ti = c.tpl as usize % TEMPLATES.len();
         let name = TEMPLATES[ti];
         obs.class(&format!("tpl:{name}"));
-        let Some(b) = build(c) else {
-            return Verdict::Skip("excluded.optional-of-nil".into());
-        };
         let (mut ws, pid) = tyws::workspace(&c.world);
         if !tyws::syntax_errors(&ws, pid).is_empty() {
             return Verdict::Skip("excluded.gen-prelude-syntax-error".into());
         }
+        // the binding candidates, materialised once to learn which of them are literal types (possibly through an alias)
+        let mut cands: Vec<Ty> = vec![c.x.clone(), c.y.clone()];
+        if let Some(nn) = non_nil(&c.x) {
+            cands.push(nn);
+        }
+        let ctexts: Vec<String> = cands.iter().map(|t| c.world.render(t)).collect();
+        let (fc, ctys) = match tyws::materialise(&mut ws, "c.lua", &ctexts) {
+            Ok(x) => x,
+            Err(_) => return Verdict::Skip("excluded.gen-not-materialised".into()),
+        };
+        if !tyws::syntax_errors(&ws, fc).is_empty() {
+            return Verdict::Skip("excluded.gen-syntax-error".into());
+        }
+        let prim = |n: &str| Ty::Prim(dt::PRIMS.iter().position(|p| *p == n).unwrap_or(0) as u8);
+        let mut wmap: Vec<(Ty, Ty)> = vec![];
+        for (t, lt) in cands.iter().zip(ctys.iter()) {
+            if tyws::mentions_unknown(tyws::db(&ws), lt) {
+                // e.g. `-9223372036854775808`, which the annotation grammar reads as unknown
+                return Verdict::Skip("excluded.unknown-argument".into());
+            }
+            if let Some(base) = tyws::literal_base(tyws::db(&ws), lt) {
+                wmap.push((t.clone(), prim(base)));
+            }
+        }
+        let widen = |t: &Ty| wmap.iter().find(|m| m.0 == *t).map(|m| m.1.clone()).unwrap_or_else(|| t.clone());
+        let Some(b) = build(c, &widen) else {
+            return Verdict::Skip("excluded.optional-of-nil".into());
+        };
         let (fe, exp) = match tyws::materialise(&mut ws, "e.lua", &b.expected) {
             Ok(x) => x,
             Err(_) => return Verdict::Skip("excluded.gen-not-materialised".into()),
@@ -204,7 +231,8 @@ impl C18 {
             return Verdict::Skip("excluded.gen-not-materialised".into());
         };
         let db = tyws::db(&ws);
-        let o = CanonOpts { expand_aliases: true, merge_const_kinds: false };
+        // a literal expression has an inferred-constant type, a literal annotation a doc-constant type: same literal
+        let o = CanonOpts { expand_aliases: true, merge_const_kinds: c.literal_expr, ..Default::default() };
         let got = tyws::canon_with(db, r, &o);
         let mut want: Vec<String> = exp.iter().map(|t| tyws::canon_with(db, t, &o)).collect();
         if name == "optional" {
@@ -220,9 +248,10 @@ impl C18 {
             _ => vec![&c.x],
         };
         let x = xs[0];
-        let lit = matches!(x, Ty::Str(..) | Ty::Int(_) | Ty::Bool(_));
+        let lit = wmap.iter().any(|m| m.0 == *x);
         obs.class(&format!("arg:{}", dt::kind(x)));
         obs.class_if(lit, "arg-literal");
+        obs.class_if(b.program.lines().last().map(|l| !l.contains("arg0") || (l.contains(',') && !l.contains("arg1"))).unwrap_or(false), "literal-expression-argument");
         if let Some(k) = want.iter().position(|w| *w == got) {
             obs.class_if(k > 0 && lit, "literal-widened");
             obs.class_if(k == 0, "exact");
@@ -254,8 +283,10 @@ impl Property for C18 {
     }
     fn strategy(&self, _tier: Tier) -> BoxedStrategy<Case> {
         let p = Profile { unknown: false, max_depth: 3, ..Profile::full() };
-        (dt::world(), 0u8..TEMPLATES.len() as u8, dt::ty(p), dt::ty(p), any::<bool>(), 0u8..3)
-            .prop_map(|(world, tpl, x, y, opt_arg, style)| Case { world, tpl, x, y, opt_arg, style })
+        // arguments: mostly any generated type, with a share of bare literals (they exercise widening)
+        let arg = prop_oneof![5 => dt::ty(p), 1 => dt::leaf(p)];
+        (dt::world(), 0u8..TEMPLATES.len() as u8, arg.clone(), arg, any::<bool>(), 0u8..3, any::<bool>())
+            .prop_map(|(world, tpl, x, y, opt_arg, style, literal_expr)| Case { world, tpl, x, y, opt_arg, style, literal_expr })
             .boxed()
     }
     fn local(&self) {}
